@@ -1319,11 +1319,11 @@ def task_fstat_kernels(scratch, tier, seed, logdir):
                  "f3": (["const 2_usize"], "(* (* |v| (- |f0| |f1|)) (- |f0| |f2|))"),
                  "f4": (["const 3_usize"], "(* (* |v| (- |f0| |f1|)) (- |f2| |f3|))")}
         for name, (contains, spec) in specs.items():
-            cands = [x for x in fns if re.search(r"stat\.rs>::from_sfs_unchecked::\{closure#0\}$", mir.norm_name(x.name)) and all(c in x.text for c in contains) and "n_i_sub" not in x.text]
-            if name == "f3":
-                cands = [x for x in cands if "const 3_usize" not in x.text]
-            if name == "f2":
-                cands = [x for x in cands if "const 2_usize" not in x.text]
+            # the closure of the impl block whose from_sfs_unchecked returns F2 / F3 / F4
+            parents = [x for x in fns if re.search(r"stat\.rs>::from_sfs_unchecked$", mir.norm_name(x.name)) and x.ret.strip() == name.upper()]
+            if len(parents) != 1:
+                raise LookupError(f"{name}: {len(parents)} parent functions")
+            cands = [x for x in fns if x.name == parents[0].name + "::{closure#0}"]
             if len(cands) != 1:
                 raise LookupError(f"{name}: {len(cands)} candidate closures")
             ex = mir.Exec(cands[0], _closure_models())
